@@ -63,7 +63,7 @@ PY_MODES   = ('func', 'eval', 'exec')
 PROC_MODES = ('proc', 'shell')
 KINDS      = ('ret', 'print', 'raise', 'setenv', 'delenv', 'swapout', 'coro', 'tenv', 'sysexit',
               'die')
-PROC_KINDS = ('ret', 'print', 'raise', 'tenv', 'sig')
+PROC_KINDS = ('ret', 'print', 'raise', 'tenv', 'sig', 'probe')
 TRACKED    = ('RPV_X', 'RPV_KEEP', 'RPV_T')
 
 MASTER_UID = 'master.0000'
@@ -176,7 +176,8 @@ SH_CODE = {
     'print': 'echo hello; echo oops >&2',
     'raise': 'echo partial; exit 3',
     'tenv' : 'echo $RPV_T',
-    'sig'  : 'kill -9 $$'}
+    'sig'  : 'kill -9 $$',
+    'probe': 'echo ${RPV_T:-unset}'}        # no environment of its own: what is left over?
 
 
 def describe(uid, r):
@@ -261,6 +262,15 @@ class FakeResultQueue(object):
         rig.log('QPut', uid=res[0]['uid'], n=1 if who == 'C' else 2)
 
     def get(self, timeout=None):
+        rig = self.rig
+        if rig.ctl is not None and rig.ctl.current() == 'W':
+            # the result thread as a logical thread (start race): waits for a result
+            if rig.ctl.aborting:
+                raise SC.Abort()
+            rig.ctl.point('get', wants=Gate(lambda: not rig.resq))
+            e = rig.resq.pop(0)
+            rig.log('Deliver', uid=e['uid'], n=e['n'])
+            return e['res']
         e, self.rig.pick = self.rig.pick, None
         if e is None:
             raise StopWatcher()
@@ -290,6 +300,27 @@ class Ctl(SC.Controller):
                 lt.killed = False
                 lt.sem.release()
         SC.Controller.abort(self)
+
+
+class PointDict(dict):
+    '''DefaultWorker._pool: registering / removing a pid is a schedule point'''
+
+    def __init__(self, rig, d):
+        dict.__init__(self, d)
+        self.rig = rig
+
+    def _point(self):
+        ctl = self.rig.ctl
+        if ctl is not None and ctl.current():
+            ctl.point('pool')
+
+    def __setitem__(self, k, v):
+        self._point()
+        dict.__setitem__(self, k, v)
+
+    def __delitem__(self, k):
+        self._point()
+        dict.__delitem__(self, k)
 
 
 class Gate(object):
@@ -340,8 +371,21 @@ class FakeProcess(object):
             FakeProcess._pid[0] += 1
             self.pid = FakeProcess._pid[0]
             rig.procs[uid] = self
-            rig.running.append(uid)
             rig.log('Spawn', uid=uid, ok=True)
+            if rig.racing:
+                # the dispatch process runs from now on (logical thread P)
+                self.finished = True
+                rig.race_pid  = self.pid
+                task, env = copy.deepcopy(self.args[0]), dict(self.args[1])
+
+                def parent():
+                    try:
+                        self.target(task, env)
+                    except SystemExit:
+                        pass
+                rig.ctl.spawn('P', parent)
+            else:
+                rig.running.append(uid)
             return
 
         def body():
@@ -472,6 +516,7 @@ class DispatcherBench(object):
         for k in KINDS:
             setattr(w, 'pay_' + k, globals()['pay_' + k])
         w.pay_rank = pay_rank
+        self._tenv_owner = w
         for short, mode in MODES.items():
             if short != 'exe':
                 w._modes[mode] = self._wrap(short, w._modes[mode])
@@ -486,13 +531,19 @@ class DispatcherBench(object):
         for k in TRACKED:
             s[k[4:]]       = os.environ.get(k, 'none')
             s['p' + k[4:]] = cgetenv(k)
+        # the serving process' base environment for sub-processes
+        tenv = getattr(self, '_tenv_owner', None)
+        tenv = tenv._task_env if tenv is not None else {}
+        s['tT']    = str(tenv.get('RPV_T', 'none'))
+        s['ntenv'] = len(tenv)
         return s
 
     def _record(self, short, task, before, res, raised):
         r = self.reqs[task['uid']]
         if 'rk' in r:        # MPI request: this rank's own outcome
-            kind = {'ok': 'ret'}.get(r['rk'][task['ranks'].index(task['rank'])],
-                                     r['rk'][task['ranks'].index(task['rank'])])
+            kind = r['rk'][task['ranks'].index(task['rank'])]
+            if kind == 'ok':
+                kind = r.get('envt') if r.get('envt', 'none') != 'none' else 'ret'
         else:
             kind = r['kind']
         ev = {'uid': task['uid'], 'rank': int(task.get('rank', -1)), 'mode': short, 'kind': kind, 'b': before, 'a': self.snap(),
@@ -541,6 +592,7 @@ class RaptorRig(DispatcherBench):
         reqs   : dict uid -> req()
         script : None (seeded random schedule) or list of operations
                    ('dispatch', uid) ('take', uid) ('finish', uid, sched)
+                   ('race', uid, sched)
                    ('deliver', uid, n) ('result', uid) ('localdone', uid, ec)
                    ('inject', uid, ec, exc[, absent])
                  operations which are not enabled when their turn comes are
@@ -563,6 +615,8 @@ class RaptorRig(DispatcherBench):
         self.pick      = None
         self.nres      = 0
         self.ctl       = None
+        self.racing    = False
+        self.race_pid  = 0
         self.wdead     = False
         self.blocked   = False
         self.undisp    = sorted(reqs)
@@ -679,6 +733,75 @@ class RaptorRig(DispatcherBench):
             self.w._request_cb(tasks)
         finally:
             self.blocked = False
+
+    def do_race(self, sched):
+        '''the next request of the queue, all of it at once: the real _request_cb
+           (logical thread Q), the real _result_watcher (W) and the request's
+           dispatch process (P, its child C, started by Q) take turns; schedule
+           points: _plock, registering / removing the pid in _pool, the result
+           queue, and those of the dispatch pair.  sched: string over Q W P C,
+           or a chooser.'''
+        if self.blocked or not self.wq:
+            return
+        task = self.wq[0]
+        r    = self.reqs[task['uid']]
+        if r['c'] > self.w._resources['cores'].count(0) or \
+           r['g'] > self.w._resources['gpus'].count(0) or r['sf']:
+            return self.do_take(1)                # would wait for resources first
+        self.wq.pop(0)
+        uid = task['uid']
+        self.log('Take', uid=uid)
+        self.nres = 0
+
+        if callable(sched):
+            chooser = sched
+        else:
+            rest = list(sched)
+
+            def chooser(en, ctl):
+                while rest:
+                    n = rest.pop(0)
+                    if n in en:
+                        return n
+                for n in ('Q', 'C', 'P', 'W'):
+                    if n in en:
+                        return n
+
+        def watcher():
+            try:
+                self.w._result_watcher()
+            except SC.Abort:
+                raise
+            except BaseException as ex:           # the result thread has ended
+                self.wdead = True
+                self.log('WatcherDied', uid=uid, exc=type(ex).__name__)
+
+        self.ctl = ctl = Ctl(chooser, max_steps=400)
+        self.racing  = True
+        plock, pool  = self.w._plock, self.w._pool
+        self.w._plock = SC.CLock(ctl, 'plock')
+        self.w._pool  = PointDict(self, pool)
+        self.penv.enter()
+        dead = False
+        try:
+            with mock.patch.object(wd.os, 'getpid', lambda: self.race_pid), \
+                 mock.patch.object(setproctitle, 'setproctitle', lambda *a: None):
+                ctl.spawn('Q', lambda: self.w._request_cb([task]))
+                if not self.wdead:
+                    ctl.spawn('W', watcher)
+                try:
+                    ctl.run()
+                except SC.Deadlock as e:          # W waits for more: the normal end
+                    dead = 'step limit' in str(e) or any(
+                        ctl.threads[n].state != 'done' for n in ctl.order if n != 'W')
+                    ctl.abort()
+        finally:
+            self.ctl, self.racing = None, False
+            self.w._plock, self.w._pool = plock, dict(self.w._pool)
+            self.penv.leave()
+        self.log('Fin', uid=uid, o=''.join(c for _, c in ctl.choices), nres=self.nres,
+                 deadlock=bool(dead))
+        return ctl
 
     def do_finish(self, uid, sched):
         '''the dispatch process of `uid` runs: real _dispatch (logical thread
@@ -797,6 +920,8 @@ class RaptorRig(DispatcherBench):
             ops.append(('dispatch', self.undisp[0]))
         if self.wq and not self.blocked:
             ops.append(('take', self.wq[0]['uid']))
+            ops.append(('race', self.wq[0]['uid'],
+                        ''.join(self.rng.choice('QWPC') for _ in range(24))))
         for u in self.running:
             ops.append(('finish', u, 'nat'))
             if self.reqs[u]['tmo']:
@@ -814,7 +939,7 @@ class RaptorRig(DispatcherBench):
     def is_enabled(self, op):
         k = op[0]
         if k == 'dispatch' : return op[1] in self.undisp
-        if k == 'take'     : return bool(self.wq) and not self.blocked
+        if k in ('take', 'race'): return bool(self.wq) and not self.blocked
         if k == 'finish'   : return op[1] in self.running
         if k == 'deliver'  : return not self.wdead and any(e['uid'] == op[1] for e in self.resq)
         if k == 'result'   : return any(t['uid'] == op[1] for t in self.mresq)
@@ -829,7 +954,7 @@ class RaptorRig(DispatcherBench):
         if self.script is not None:
             while self.script:
                 op = tuple(self.script.pop(0))
-                if self.blocked and op[0] == 'take':
+                if self.blocked and op[0] in ('take', 'race'):
                     self.script.insert(0, op)      # not before the current one started
                     break
                 if self.is_enabled(op):
@@ -849,6 +974,7 @@ class RaptorRig(DispatcherBench):
         elif k == 'take'     :
             n = 2 if (self.script is None and len(self.wq) > 1 and self.rng.random() < 0.3) else 1
             self.do_take(n)
+        elif k == 'race'     : self.do_race(op[2])
         elif k == 'finish'   : self.do_finish(op[1], op[2])
         elif k == 'deliver'  : self.do_deliver(op[1], op[2] if len(op) > 2 else None)
         elif k == 'result'   : self.do_result(op[1])
@@ -1046,15 +1172,19 @@ MPI_ENV   = {'RP_TASK_SANDBOX': None, 'RP_PILOT_ID': 'pilot.0000', 'RP_SESSION_I
              'RP_PROF': '/bin/true', 'RP_PROF_TGT': '/dev/null'}
 
 
-def mpi_req(n=1, mode='func', rk=None, pf=-1):
+def mpi_req(n=1, mode='func', rk=None, pf=-1, envt='none'):
     '''a request for the MPI worker: n ranks (may exceed what the worker has),
        rk[i] in ok | raise | sig is what the call does on the i-th of its ranks
-       (sig: shell only); pf >= 0: sending the copy for the pf-th rank fails'''
+       (sig: shell only); pf >= 0: sending the copy for the pf-th rank fails;
+       envt (shell only): 'tenv' - the request brings RPV_T in its environment and
+       its ranks print it; 'probe' - it brings none and its ranks print what they
+       find (the ranks serve many requests in one process)'''
     rk = list(rk or ['ok'] * n)
     assert len(rk) == n and mode in MPI_MODES
     assert all(o in ('ok', 'raise') or (o == 'sig' and mode == 'shell') for o in rk)
+    assert envt == 'none' or mode == 'shell'
     return dict(c=n, g=0, mode=mode, kind='ret', rk=rk, tmo=False, sf=False, via='attr',
-                pf=int(pf))
+                pf=int(pf), envt=envt)
 
 
 def describe_mpi(uid, r):
@@ -1069,7 +1199,10 @@ def describe_mpi(uid, r):
     else:
         d['command'] = 'case $RP_RANK in ' + ''.join(
             '%d) echo partial; exit 3;; ' % i if o == 'raise' else '%d) kill -9 $$;; ' % i
-            for i, o in enumerate(rk) if o != 'ok') + 'esac; true'
+            for i, o in enumerate(rk) if o != 'ok') + 'esac; ' + \
+            {'tenv': SH_CODE['tenv'], 'probe': SH_CODE['probe']}.get(r.get('envt'), 'true')
+        if r.get('envt') == 'tenv':
+            d['environment'] = {'RPV_T': 'v'}
     return make_task(d)
 
 
